@@ -13,41 +13,53 @@ Local Open Scope Z_scope.
 (** With `defer ClearTxStateDB` a message that starts with no published StateDB is the pure
     specification: ante; one StateDB transaction; refund — or nothing at all — and it ends with no
     published StateDB. *)
-Lemma deliver_is_spec st m : ms_ptr st = None ->
-  ms_blk (fst (deliver true st m)) = fst (spec_deliver (ms_blk st) m) /\
-  snd (deliver true st m) = snd (spec_deliver (ms_blk st) m) /\
-  ms_ptr (fst (deliver true st m)) = None.
+Lemma deliver_is_spec f st m : ms_ptr st = None ->
+  ms_blk (fst (deliver true true f st m)) = fst (spec_deliver f (ms_blk st) m) /\
+  snd (deliver true true f st m) = snd (spec_deliver f (ms_blk st) m) /\
+  ms_ptr (fst (deliver true true f st m)) = None.
 Proof.
   intro Hp. unfold deliver, spec_deliver, run_tx. rewrite Hp.
-  destruct (ante (ms_blk st) m) as [b|]; [|simpl; auto].
+  destruct (ante true f (ms_blk st) m) as [b|]; [|simpl; auto].
   destruct (m_gas m <? intrinsic m); [simpl; auto|].
   destruct (run (m_ops m) (new_full b)) as [f1 rets]. simpl. auto.
 Qed.
 
-Theorem deliver_hist_is_spec : forall ms st, ms_ptr st = None ->
-  ms_blk (fst (deliver_hist true st ms)) = fst (spec_hist (ms_blk st) ms) /\
-  snd (deliver_hist true st ms) = snd (spec_hist (ms_blk st) ms) /\
-  ms_ptr (fst (deliver_hist true st ms)) = None.
+Theorem deliver_hist_is_spec f : forall ms st, ms_ptr st = None ->
+  ms_blk (fst (deliver_hist true true f st ms)) = fst (spec_hist f (ms_blk st) ms) /\
+  snd (deliver_hist true true f st ms) = snd (spec_hist f (ms_blk st) ms) /\
+  ms_ptr (fst (deliver_hist true true f st ms)) = None.
 Proof.
   induction ms as [|m ms IH]; intros st Hp; simpl; [auto|].
-  destruct (deliver_is_spec st m Hp) as (A & B & C).
-  destruct (deliver true st m) as [st1 r]. destruct (spec_deliver (ms_blk st) m) as [k1 r']. simpl in *. subst.
+  destruct (deliver_is_spec f st m Hp) as (A & B & C).
+  destruct (deliver true true f st m) as [st1 r]. destruct (spec_deliver f (ms_blk st) m) as [k1 r']. simpl in *. subst.
   destruct (IH st1 C) as (D & E & F).
-  destruct (deliver_hist true st1 ms) as [st2 rs]. destruct (spec_hist (ms_blk st1) ms) as [k2 rs']. simpl in *.
+  destruct (deliver_hist true true f st1 ms) as [st2 rs]. destruct (spec_hist f (ms_blk st1) ms) as [k2 rs']. simpl in *.
   subst. auto.
 Qed.
 
 (** a rejected message (ante or intrinsic gas) leaves the block state untouched *)
-Lemma rejected_no_effect c st m : snd (deliver c st m) = MRejected -> ms_blk (fst (deliver c st m)) = ms_blk st.
+Lemma rejected_no_effect c b f st m : snd (deliver c b f st m) = MRejected -> ms_blk (fst (deliver c b f st m)) = ms_blk st.
 Proof.
-  unfold deliver. destruct (ante (ms_blk st) m) as [b|]; [|reflexivity].
+  unfold deliver. destruct (ante b f (ms_blk st) m) as [br|]; [|reflexivity].
   destruct (m_gas m <? intrinsic m); [reflexivity|].
   destruct (run _ _) as [f1 rets]. simpl. discriminate.
 Qed.
 
 (** * 2. message histories against the reference *)
 
-Definition price_whole (m : msg) : Prop := m_price m mod WEI = 0.
+(** base fee, tip and fee cap are whole unibi per gas (so every fee is whole unibi); the tip is not negative *)
+Definition price_whole (m : msg) : Prop :=
+  m_base m mod WEI = 0 /\ m_tip m mod WEI = 0 /\ m_cap m mod WEI = 0 /\ 0 <= m_tip m.
+
+(** side condition of the message theorems: the gas price / fee cap is not below the base fee.  (Below
+    it Nibiru's ante chain admits the message and charges the base fee, go-ethereum rejects it:
+    [admission_below_base_fee_refuted].) *)
+Definition cap_covers_base (m : msg) : Prop := m_base m <= m_cap m.
+
+(** true of every real message (unsigned quantities) *)
+Definition amounts_nonneg (m : msg) : Prop := 0 <= m_tip m /\ 0 <= m_gas m /\ 0 <= m_value m.
+
+
 
 Lemma mul_whole a p : p mod WEI = 0 -> (a * p) mod WEI = 0.
 Proof.
@@ -55,10 +67,33 @@ Proof.
   apply Z.divide_mul_r. exact H.
 Qed.
 
+Lemma nib_price_whole m : price_whole m -> nib_price m mod WEI = 0.
+Proof.
+  intros (Hb & Ht & Hc & _). pose proof WEI_pos as Hw.
+  assert (Hs : (m_tip m + m_base m) mod WEI = 0).
+  { apply Z.mod_divide; [lia|]. apply Z.divide_add_r; apply Z.mod_divide; auto; lia. }
+  unfold nib_price.
+  destruct (Z.max_spec (m_base m) (Z.min (m_tip m + m_base m) (m_cap m))) as [[_ ->]|[_ ->]]; [|exact Hb].
+  destruct (Z.min_spec (m_tip m + m_base m) (m_cap m)) as [[_ ->]|[_ ->]]; assumption.
+Qed.
+
+(** once the fee cap covers the base fee, Nibiru's effective price is go-ethereum's gas price *)
+Lemma prices_eq m : m_base m <= m_cap m -> 0 <= m_tip m -> nib_price m = geth_price m.
+Proof. unfold nib_price, geth_price. lia. Qed.
+
+(** the effective fee never exceeds gas * feeCap + value, so the bank never refuses the fee of a
+    message that passed CheckSenderBalance *)
+Lemma fee_le_cap_cost m : cap_covers_base m -> amounts_nonneg m -> fee m <= cap_cost m.
+Proof.
+  intros Hc (Ht & Hg & Hv). unfold fee, cap_cost. rewrite (prices_eq m Hc Ht). unfold geth_price.
+  assert (m_gas m * Z.min (m_tip m + m_base m) (m_cap m) <= m_gas m * m_cap m) by (apply Z.mul_le_mono_nonneg_l; lia).
+  lia.
+Qed.
+
 Lemma fee_whole m : price_whole m -> to_wei (to_native (fee m)) = fee m.
-Proof. intro H. apply whole_unibi_iff. apply mul_whole, H. Qed.
+Proof. intro H. apply whole_unibi_iff. apply mul_whole, nib_price_whole, H. Qed.
 Lemma leftover_whole m : price_whole m -> to_wei (to_native (leftover m)) = leftover m.
-Proof. intro H. apply whole_unibi_iff. apply mul_whole, H. Qed.
+Proof. intro H. apply whole_unibi_iff. apply mul_whole, nib_price_whole, H. Qed.
 
 Lemma to_wei_sub a b : to_wei (a - b) = to_wei a - to_wei b.
 Proof. unfold to_wei. apply Z.mul_sub_distr_r. Qed.
@@ -94,27 +129,66 @@ Proof.
   - intros a0 ky. simpl. apply (Hs a0 ky).
 Qed.
 
+(** THE ADMISSION DECISION: with the balance checked against TxData.Cost() the ante chain admits a
+    message exactly when go-ethereum's preCheck + buyGas does — the same function of sender code,
+    nonce, balance, tip, fee cap, base fee, gas limit and value — for every message (no side condition) *)
+Lemma admission_sim f k w m : weq (world_of k) w -> cap_covers_base m -> amounts_nonneg m ->
+  (ante true f k m = None <-> ref_buy w m = None).
+Proof.
+  intros Hw Hc Hn. pose proof (fee_le_cap_cost m Hc Hn) as Hf. apply Z.ltb_ge in Hc. unfold ante, ref_buy. rewrite Hc.
+  rewrite andb_false_r. rewrite (w_get_world_of k w (m_from m) Hw). cbn [wa_bal wa_nonce wa_code].
+  destruct (negb (ka_code (k_get k (m_from m)) =? 0)); [tauto|].
+  destruct (m_cap m <? m_tip m); [tauto|].
+  destruct (to_wei (ka_bal (k_get k (m_from m))) <? cap_cost m) eqn:Eb; [tauto|].
+  apply Z.ltb_ge in Eb.
+  assert (E2 : (to_wei (ka_bal (k_get k (m_from m))) <? fee m) = false) by (apply Z.ltb_ge; lia). rewrite E2.
+  destruct (negb (ka_nonce (k_get k (m_from m)) =? m_nonce m)); [tauto|].
+  split; discriminate.
+Qed.
+
 (** the ante chain on the keeper = go-ethereum's preCheck + buyGas on the world *)
-Lemma ante_sim k w m : kwf k -> weq (world_of k) w -> price_whole m ->
-  match ante k m, ref_buy w m with
+(** when the ante chain compares the FEE CAP with the base fee ([floor_check] = true) the admission
+    decision is go-ethereum's for EVERY message — no side condition on the prices *)
+Lemma admission_exact k w m : weq (world_of k) w -> amounts_nonneg m ->
+  (ante true true k m = None <-> ref_buy w m = None).
+Proof.
+  intros Hw Hn. destruct (Z.ltb_spec (m_cap m) (m_base m)) as [Hlt|Hge].
+  - unfold ante, ref_buy. rewrite (w_get_world_of k w (m_from m) Hw). cbn [wa_bal wa_nonce wa_code].
+    apply Z.ltb_lt in Hlt. rewrite Hlt. cbn [andb].
+    destruct (negb (ka_code (k_get k (m_from m)) =? 0)); [tauto|].
+    destruct (m_cap m <? m_tip m); tauto.
+  - apply admission_sim; assumption.
+Qed.
+
+Lemma ante_sim f k w m : kwf k -> weq (world_of k) w -> price_whole m -> cap_covers_base m -> amounts_nonneg m ->
+  match ante true f k m, ref_buy w m with
   | Some k1, Some w1 => kwf k1 /\ weq (world_of k1) w1
   | None, None => True
   | _, _ => False
   end.
 Proof.
-  intros Hk Hw Hp. unfold ante, ref_buy. rewrite (w_get_world_of k w (m_from m) Hw). cbn [wa_bal wa_nonce wa_code].
+  intros Hk Hw Hp Eb Hn. pose proof Eb as Eb'. apply Z.ltb_ge in Eb'.
+  unfold ante, ref_buy. rewrite Eb'. rewrite andb_false_r. rewrite (w_get_world_of k w (m_from m) Hw). cbn [wa_bal wa_nonce wa_code].
   destruct (negb (ka_code (k_get k (m_from m)) =? 0)) eqn:Ec; [exact I|].
-  destruct (to_wei (ka_bal (k_get k (m_from m))) <? fee m + m_value m); [exact I|].
+  destruct (m_cap m <? m_tip m); [exact I|].
+  destruct (to_wei (ka_bal (k_get k (m_from m))) <? cap_cost m) eqn:Ebal; [exact I|].
+  apply Z.ltb_ge in Ebal. pose proof (fee_le_cap_cost m Eb Hn) as Hfc.
+  assert (E2 : (to_wei (ka_bal (k_get k (m_from m))) <? fee m) = false) by (apply Z.ltb_ge; lia). rewrite E2.
   destruct (negb (ka_nonce (k_get k (m_from m)) =? m_nonce m)); [exact I|].
+  assert (Hf : rfee m = fee m).
+  { unfold rfee, fee. rewrite (prices_eq m Eb); [reflexivity|apply Hp]. }
   split.
   - apply kwf_kset_acct; [exact Hk|]. cbn [ka_code]. apply k_get_code, Hk.
-  - apply weq_set; [exact Hw|]. cbn [ka_bal ka_nonce ka_code]. rewrite to_wei_sub, (fee_whole m Hp). reflexivity.
+  - apply weq_set; [exact Hw|]. cbn [ka_bal ka_nonce ka_code]. rewrite to_wei_sub, (fee_whole m Hp), Hf. reflexivity.
 Qed.
 
-Lemma refund_sim k w m : kwf k -> weq (world_of k) w -> price_whole m ->
+Lemma refund_sim k w m : kwf k -> weq (world_of k) w -> price_whole m -> m_base m <= m_cap m ->
   kwf (refund_gas k m) /\ weq (world_of (refund_gas k m)) (ref_refund w m).
 Proof.
-  intros Hk Hw Hp. unfold refund_gas, ref_refund.
+  intros Hk Hw Hp Hc. unfold refund_gas, ref_refund.
+  assert (Hl : rleftover m = leftover m).
+  { unfold rleftover, leftover. rewrite (prices_eq m Hc); [reflexivity|apply Hp]. }
+  rewrite Hl.
   destruct (to_native (leftover m) =? 0); [split; assumption|].
   rewrite (w_get_world_of k w (m_from m) Hw). cbn [wa_bal wa_nonce wa_code]. split.
   - apply kwf_kset_acct; [exact Hk|]. cbn [ka_code]. apply k_get_code, Hk.
@@ -124,7 +198,7 @@ Qed.
 (** hypotheses on a history, stated on the REFERENCE only: prices are whole unibi per gas, and the
     calls of every message that is executed obey the interpreter's protocol and move whole unibi *)
 Definition msg_wf (w : world) (m : msg) : Prop :=
-  price_whole m /\
+  (price_whole m /\ cap_covers_base m /\ amounts_nonneg m) /\
   match ref_buy w m with
   | Some w1 => if m_gas m <? intrinsic m then True
                else wf_run (w_stor w1) (m_ops m) (ref_begin w1) /\ Forall op_whole (m_ops m)
@@ -137,13 +211,13 @@ Fixpoint msgs_wf (w : world) (ms : list msg) : Prop :=
   | m :: rest => msg_wf w m /\ msgs_wf (fst (ref_deliver w m)) rest
   end.
 
-Lemma spec_deliver_sim k w m : kwf k -> weq (world_of k) w -> msg_wf w m ->
-  snd (spec_deliver k m) = snd (ref_deliver w m) /\
-  weq (world_of (fst (spec_deliver k m))) (fst (ref_deliver w m)) /\ kwf (fst (spec_deliver k m)).
+Lemma spec_deliver_sim f k w m : kwf k -> weq (world_of k) w -> msg_wf w m ->
+  snd (spec_deliver f k m) = snd (ref_deliver w m) /\
+  weq (world_of (fst (spec_deliver f k m))) (fst (ref_deliver w m)) /\ kwf (fst (spec_deliver f k m)).
 Proof.
-  intros Hk Hw [Hp Hm]. pose proof (ante_sim k w m Hk Hw Hp) as Ha.
+  intros Hk Hw [(Hp & Hcap & Hn) Hm]. pose proof (ante_sim f k w m Hk Hw Hp Hcap Hn) as Ha.
   unfold spec_deliver, ref_deliver.
-  destruct (ante k m) as [k1|], (ref_buy w m) as [w1|]; try contradiction; [|simpl; auto].
+  destruct (ante true f k m) as [k1|] eqn:Ea, (ref_buy w m) as [w1|]; try contradiction; [|simpl; auto].
   destruct Ha as [Hk1 Hw1].
   destruct (m_gas m <? intrinsic m); [simpl; auto|].
   destruct Hm as [Hwf Hwhole].
@@ -151,45 +225,45 @@ Proof.
   { simpl. auto. }
   simpl in E1, E2, E3.
   destruct (run_tx k1 (m_ops m)) as [k2 rs]. destruct (ref_tx w1 (m_ops m)) as [w2 xs]. simpl in *.
-  destruct (refund_sim k2 w2 m E3 E2 Hp) as [R1 R2].
+  destruct (refund_sim k2 w2 m E3 E2 Hp Hcap) as [R1 R2].
   split; [injection E1 as ->; reflexivity|]. split; assumption.
 Qed.
 
-Theorem msgs_refine : forall ms k w, kwf k -> weq (world_of k) w -> msgs_wf w ms ->
-  snd (spec_hist k ms) = snd (ref_hist w ms) /\
-  weq (world_of (fst (spec_hist k ms))) (fst (ref_hist w ms)) /\ kwf (fst (spec_hist k ms)).
+Theorem msgs_refine f : forall ms k w, kwf k -> weq (world_of k) w -> msgs_wf w ms ->
+  snd (spec_hist f k ms) = snd (ref_hist w ms) /\
+  weq (world_of (fst (spec_hist f k ms))) (fst (ref_hist w ms)) /\ kwf (fst (spec_hist f k ms)).
 Proof.
   induction ms as [|m ms IH]; intros k w Hk Hw Hwf; simpl; [auto|].
   destruct Hwf as [Hm Hrest].
-  destruct (spec_deliver_sim k w m Hk Hw Hm) as (A & B & C).
-  destruct (spec_deliver k m) as [k1 r]. destruct (ref_deliver w m) as [w1 r']. simpl in *. subst.
+  destruct (spec_deliver_sim f k w m Hk Hw Hm) as (A & B & C).
+  destruct (spec_deliver f k m) as [k1 r]. destruct (ref_deliver w m) as [w1 r']. simpl in *. subst.
   destruct (IH k1 w1 C B Hrest) as (D & E & F).
-  destruct (spec_hist k1 ms) as [k2 rs]. destruct (ref_hist w1 ms) as [w2 rs']. simpl in *. subst. auto.
+  destruct (spec_hist f k1 ms) as [k2 rs]. destruct (ref_hist w1 ms) as [w2 rs']. simpl in *. subst. auto.
 Qed.
 
 (** the two together: delivery with the pointer and the branches, from a chain with no published
     StateDB, reports for EVERY message what the reference reports (rejected / executed with the same
     return value of every call) and ends in the reference's world *)
-Theorem messages_equal_reference : forall ms k w, kwf k -> weq (world_of k) w -> msgs_wf w ms ->
-  let r := deliver_hist true {| ms_blk := k; ms_ptr := None |} ms in
+Theorem messages_equal_reference f : forall ms k w, kwf k -> weq (world_of k) w -> msgs_wf w ms ->
+  let r := deliver_hist true true f {| ms_blk := k; ms_ptr := None |} ms in
   snd r = snd (ref_hist w ms) /\ weq (world_of (ms_blk (fst r))) (fst (ref_hist w ms)) /\
   kwf (ms_blk (fst r)) /\ ms_ptr (fst r) = None.
 Proof.
   intros ms k w Hk Hw Hwf.
-  destruct (deliver_hist_is_spec ms {| ms_blk := k; ms_ptr := None |} eq_refl) as (A & B & C).
-  destruct (msgs_refine ms k w Hk Hw Hwf) as (D & E & F).
+  destruct (deliver_hist_is_spec f ms {| ms_blk := k; ms_ptr := None |} eq_refl) as (A & B & C).
+  destruct (msgs_refine f ms k w Hk Hw Hwf) as (D & E & F0).
   cbn [ms_blk] in A, B. cbv zeta. rewrite A, B. auto.
 Qed.
 
 (** every prefix: the world after EVERY message is the reference's *)
-Lemma deliver_hist_app c : forall ms1 ms2 st,
-  deliver_hist c st (ms1 ++ ms2) =
-  let '(st1, r1) := deliver_hist c st ms1 in let '(st2, r2) := deliver_hist c st1 ms2 in (st2, r1 ++ r2).
+Lemma deliver_hist_app c b f : forall ms1 ms2 st,
+  deliver_hist c b f st (ms1 ++ ms2) =
+  let '(st1, r1) := deliver_hist c b f st ms1 in let '(st2, r2) := deliver_hist c b f st1 ms2 in (st2, r1 ++ r2).
 Proof.
   induction ms1 as [|m ms1 IH]; intros ms2 st; simpl.
-  - destruct (deliver_hist c st ms2). reflexivity.
-  - destruct (deliver c st m) as [st1 r]. rewrite IH.
-    destruct (deliver_hist c st1 ms1) as [st2 r1]. destruct (deliver_hist c st2 ms2) as [st3 r2]. reflexivity.
+  - destruct (deliver_hist c b f st ms2). reflexivity.
+  - destruct (deliver c b f st m) as [st1 r]. rewrite IH.
+    destruct (deliver_hist c b f st1 ms1) as [st2 r1]. destruct (deliver_hist c b f st2 ms2) as [st3 r2]. reflexivity.
 Qed.
 
 Lemma msgs_wf_prefix : forall ms1 ms2 w, msgs_wf w (ms1 ++ ms2) -> msgs_wf w ms1.
@@ -198,26 +272,49 @@ Proof.
   destruct H as [A B]. split; [exact A|]. eapply IH, B.
 Qed.
 
-Corollary messages_equal_reference_after_every_message : forall ms1 ms2 k w,
+Corollary messages_equal_reference_after_every_message f : forall ms1 ms2 k w,
   kwf k -> weq (world_of k) w -> msgs_wf w (ms1 ++ ms2) ->
-  weq (world_of (ms_blk (fst (deliver_hist true {| ms_blk := k; ms_ptr := None |} ms1)))) (fst (ref_hist w ms1)).
+  weq (world_of (ms_blk (fst (deliver_hist true true f {| ms_blk := k; ms_ptr := None |} ms1)))) (fst (ref_hist w ms1)).
 Proof.
   intros ms1 ms2 k w Hk Hw H.
-  apply (messages_equal_reference ms1 k w Hk Hw (msgs_wf_prefix ms1 ms2 w H)).
+  apply (messages_equal_reference f ms1 k w Hk Hw (msgs_wf_prefix ms1 ms2 w H)).
 Qed.
 
 (** * 3. the variant that forgets the published StateDB only on the success path is refuted:
     after a message with a gas limit below the intrinsic gas, the next ordinary message REPORTS the
     same result and return values as the specification, but its SSTORE never reaches the block state *)
 Theorem stale_statedb_refuted :
-  let bad := deliver_hist false {| ms_blk := ex_k0; ms_ptr := None |} ex_msgs in
-  let good := spec_hist ex_k0 ex_msgs in
+  let bad := deliver_hist false true true {| ms_blk := ex_k0; ms_ptr := None |} ex_msgs in
+  let good := spec_hist true ex_k0 ex_msgs in
   snd bad = snd good /\
   snd good = [MRejected; MExecuted [[]; []; [0]; [0]; []; []; []]] /\
   k_stor (fst good) 2 0 = 5 /\ k_stor (ms_blk (fst bad)) 2 0 = 0.
 Proof. vm_compute. repeat split; reflexivity. Qed.
 
-Lemma msg_wf_intro w m w1 : price_whole m -> ref_buy w m = Some w1 ->
+(** the variant whose sender-balance precheck uses the EFFECTIVE cost (gas * effective price + value)
+    instead of gas * feeCap + value is refuted: a dynamic-fee transfer with fee cap 10 unibi and no tip
+    from a sender that can pay 21000 + 50000 unibi but not 210000 + 50000 is an invalid message for the
+    reference (no effect) and for the cap-cost ante chain — the variant executes it: nonce bumped, value moved *)
+Theorem effective_cost_admission_refuted :
+  let st0 := {| ms_blk := ex_k_poor; ms_ptr := None |} in
+  let bad := deliver_hist true false true st0 [ex_m_feecap] in
+  snd (ref_hist (world_of ex_k_poor) [ex_m_feecap]) = [MRejected] /\
+  snd (deliver_hist true true true st0 [ex_m_feecap]) = [MRejected] /\
+  (exists rets, snd bad = [MExecuted rets]) /\
+  option_map ka_nonce (k_acct (ms_blk (fst bad)) 1) = Some 1 /\
+  option_map ka_bal (k_acct (ms_blk (fst bad)) 1) = Some (100000 - 21000 - 50000) /\
+  option_map ka_bal (k_acct (ms_blk (fst bad)) 3) = Some 50000.
+Proof. vm_compute. repeat split; try reflexivity. eexists. reflexivity. Qed.
+
+(** a gas price below the base fee, when the ante chain does not compare the fee cap itself with the
+    base fee ([floor_check] = false): it admits the message (and charges the base fee: the sender pays
+    100000 unibi up front for a gas price of 0); the reference rejects it, and so does [floor_check] = true *)
+Theorem admission_below_base_fee_refuted :
+  ref_buy (world_of ex_k0) ex_m_lowprice = None /\ ante true true ex_k0 ex_m_lowprice = None /\
+  option_map (fun k1 => option_map ka_bal (k_acct k1 1)) (ante true false ex_k0 ex_m_lowprice) = Some (Some (1000000 - 100000)).
+Proof. vm_compute. repeat split; reflexivity. Qed.
+
+Lemma msg_wf_intro w m w1 : price_whole m /\ cap_covers_base m /\ amounts_nonneg m -> ref_buy w m = Some w1 ->
   wf_run (w_stor w1) (m_ops m) (ref_begin w1) -> Forall op_whole (m_ops m) -> msg_wf w m.
 Proof. intros Hp E A B. split; [exact Hp|]. rewrite E. destruct (m_gas m <? intrinsic m); [exact I|split; assumption]. Qed.
 
@@ -236,10 +333,10 @@ Example ex_msgs_nonvacuous : kwf ex_k0 /\ msgs_wf (world_of ex_k0) ex_msgs.
 Proof.
   split; [exact ex_kwf|].
   cbn [msgs_wf ex_msgs]. split; [|split; [|exact I]].
-  - split; [reflexivity|]. vm_compute. exact I.
+  - split; [repeat split; try reflexivity; discriminate|]. vm_compute. exact I.
   - set (w := fst (ref_deliver (world_of ex_k0) ex_m_low)).
     destruct (ref_buy w ex_m_call) as [w1|] eqn:E.
-    + apply (msg_wf_intro w ex_m_call w1); [reflexivity|exact E| |unfold ex_m_call; cbn [m_ops]; repeat constructor].
+    + apply (msg_wf_intro w ex_m_call w1); [repeat split; try reflexivity; discriminate|exact E| |unfold ex_m_call; cbn [m_ops]; repeat constructor].
       vm_compute in E. injection E as <-.
       vm_compute. repeat split; try discriminate; intros; reflexivity.
     + assert (H : match ref_buy w ex_m_call with Some _ => true | None => false end = true) by (vm_compute; reflexivity).
